@@ -161,6 +161,12 @@ def generate(prop, g, tier):
         cfg["knobs"]["downsample"] = g.pick([2, 3])
     elif prop == "C07" and g.coin(0.1):
         cfg["knobs"]["queue_size"] = g.pick([1, 3])
+    if prop == "C07" and g.coin(0.08):
+        # one drain of a worker's sampler holds well over a thousand samples (a fast task between two wake-ups)
+        cfg["service"] = {"kind": "const", "v": 0.0005}
+        cfg["knobs"]["worker_wakeup"] = 5
+        burst = {"name": "tburst", "op": "raw-request", "clients": g.pick([1, 2]), "iterations": g.pick([1100, 1600, 2300]), "warmup-iterations": 0, "tags": [], "sim": {"task": "tburst", "unit": "ops", "cpu_params": None}}
+        cfg["schedule"].insert(g.choose(len(cfg["schedule"]) + 1), {"task": burst})
     if prop == "C07" and g.coin(0.4):
         # some requests fail (on-error=continue): their records say so, the records of the other requests do not
         cands = [t for _, _, t in leaf_tasks(cfg["schedule"]) if t["op"] in ("sim-op", "raw-request") and "sim" in t]
